@@ -72,6 +72,10 @@ type tfun struct {
 	mutates  bool
 	text     string
 	skipped  []string
+	view     string   // suffix of the structure name: a separate record of the receiver's fields for this group of functions
+	opaque   bool     // argument-less interface-method calls become parameters
+	onames   []string // those parameters, in order of first use
+	otypes   []gty
 }
 
 type translator struct {
@@ -81,6 +85,7 @@ type translator struct {
 	consts  map[string]string
 	funs    map[string]*tfun // by recv.name
 	used    map[string]map[string]bool
+	imeth   map[string]gty // result type of the argument-less methods of the package's interfaces, by method name
 }
 
 func typeOfExpr(e ast.Expr) gty {
@@ -121,7 +126,7 @@ func typeOfExpr(e ast.Expr) gty {
 
 func newTranslator(p *pkg, gen string) *translator {
 	t := &translator{p: p, gen: gen, structs: map[string]*structInfo{}, consts: map[string]string{}, funs: map[string]*tfun{},
-		used: map[string]map[string]bool{}}
+		used: map[string]map[string]bool{}, imeth: map[string]gty{}}
 	names := make([]string, 0, len(p.files))
 	for n := range p.files {
 		names = append(names, n)
@@ -136,6 +141,19 @@ func newTranslator(p *pkg, gen string) *translator {
 			for _, s := range gd.Specs {
 				switch sp := s.(type) {
 				case *ast.TypeSpec:
+					if it, ok := sp.Type.(*ast.InterfaceType); ok {
+						for _, m := range it.Methods.List {
+							ft, ok := m.Type.(*ast.FuncType)
+							if !ok || len(m.Names) != 1 || len(ft.Params.List) != 0 || ft.Results == nil || len(ft.Results.List) != 1 {
+								continue
+							}
+							ty := typeOfExpr(ft.Results.List[0].Type)
+							if old, seen := t.imeth[m.Names[0].Name]; seen && old != ty {
+								ty = tUnknown
+							}
+							t.imeth[m.Names[0].Name] = ty
+						}
+					}
 					if stt, ok := sp.Type.(*ast.StructType); ok {
 						si := &structInfo{name: sp.Name.Name, ftype: map[string]gty{}}
 						for _, f := range stt.Fields.List {
@@ -189,10 +207,10 @@ func (e *env) useField(name string) gty {
 	if ty == tUnknown {
 		e.fail("field %s has a type outside the subset", name)
 	}
-	if e.t.used[e.f.st.name] == nil {
-		e.t.used[e.f.st.name] = map[string]bool{}
+	if e.t.used[e.f.st.name+e.f.view] == nil {
+		e.t.used[e.f.st.name+e.f.view] = map[string]bool{}
 	}
-	e.t.used[e.f.st.name][name] = true
+	e.t.used[e.f.st.name+e.f.view][name] = true
 	return ty
 }
 
@@ -250,6 +268,12 @@ func (e *env) expr(x ast.Expr) (string, gty) {
 		if f, ok := e.recvField(v); ok {
 			ty := e.useField(f)
 			return fmt.Sprintf("%s.%s", e.rname, leanIdent(f)), ty
+		}
+		if id, ok := v.X.(*ast.Ident); ok && id.Name == "time" {
+			if ns, ok := map[string]string{"Nanosecond": "1", "Microsecond": "1000", "Millisecond": "1000000", "Second": "1000000000",
+				"Minute": "60000000000", "Hour": "3600000000000"}[v.Sel.Name]; ok {
+				return ns, tInt
+			}
 		}
 		e.fail("selector %s", e.t.p.str(v))
 	case *ast.IndexExpr:
@@ -383,6 +407,23 @@ func (e *env) call(v *ast.CallExpr) (string, gty) {
 				if cal, ok := e.t.funs[e.f.recv+"."+fn.Sel.Name]; ok && len(cal.resTypes) == 1 && !cal.mutates && len(v.Args) == 0 {
 					return "(" + cal.lean + " " + e.rname + ")", cal.resTypes[0]
 				}
+			}
+		}
+	}
+	if sel, ok := v.Fun.(*ast.SelectorExpr); ok && e.f.opaque && len(v.Args) == 0 {
+		// `x.M()` on an interface value: an input of the translated function (the user's getters are taken to be pure)
+		if _, xty := e.expr(sel.X); xty == tPtr {
+			if ty, ok := e.t.imeth[sel.Sel.Name]; ok && ty != tUnknown && ty != tF64 {
+				name := strings.NewReplacer(".", "_", "(", "", ")", "").Replace(e.t.p.str(sel.X)) + "_" + sel.Sel.Name
+				found := false
+				for _, n := range e.f.onames {
+					found = found || n == name
+				}
+				if !found {
+					e.f.onames = append(e.f.onames, name)
+					e.f.otypes = append(e.f.otypes, ty)
+				}
+				return name, ty
 			}
 		}
 	}
@@ -546,6 +587,21 @@ func (e *env) block(stmts []ast.Stmt, fall string, ind string) string {
 				vals = e.namedResults()
 			} else {
 				for j, r := range v.Results {
+					if j < len(e.f.resTypes) && e.f.resTypes[j] == tErr {
+						if id, ok := r.(*ast.Ident); ok {
+							if _, isVar := e.vars[id.Name]; !isVar {
+								if id.Name == "nil" {
+									vals = append(vals, "\"\"")
+								} else {
+									vals = append(vals, fmt.Sprintf("%q", id.Name)) // a package-level error value
+								}
+								continue
+							}
+						}
+						x, _ := e.rhs(r)
+						vals = append(vals, x)
+						continue
+					}
 					x, ty := e.expr(r)
 					if j < len(e.f.resTypes) {
 						x = wrap2(e.f.resTypes[j], ty, x)
@@ -888,6 +944,9 @@ type tspec struct {
 	sliceFrom              string
 	sliceN                 int
 	sliceOut               []string
+	view                   string
+	until                  string // translate only the statements before the first call statement of this function
+	opaque                 bool
 }
 
 func (t *translator) translate(sp tspec) (res *tfun, why string) {
@@ -899,7 +958,7 @@ func (t *translator) translate(sp tspec) (res *tfun, why string) {
 	if st == nil {
 		return nil, "receiver struct not found"
 	}
-	f := &tfun{lean: sp.lean, decl: fd, recv: sp.recv, st: st}
+	f := &tfun{lean: sp.lean, decl: fd, recv: sp.recv, st: st, opaque: sp.opaque, view: sp.view}
 	e := &env{t: t, f: f, vars: map[string]gty{}, lnames: map[string]string{}}
 	e.rname = fd.Recv.List[0].Names[0].Name
 	defer func() {
@@ -917,7 +976,7 @@ func (t *translator) translate(sp tspec) (res *tfun, why string) {
 			if ty == tUnknown || ty == tF64 {
 				e.fail("parameter %s has a type outside the subset", nm.Name)
 			}
-			if ty == tPtr && sp.sliceFrom == "" {
+			if ty == tPtr && sp.sliceFrom == "" && !sp.opaque {
 				continue // contexts, ids: not used by the translated subset (a use would fail as unknown identifier)
 			}
 			f.params = append(f.params, nm.Name)
@@ -926,6 +985,21 @@ func (t *translator) translate(sp tspec) (res *tfun, why string) {
 		}
 	}
 	stmts := fd.Body.List
+	if sp.until != "" {
+		cut := -1
+		for i, s := range stmts {
+			if es, ok := s.(*ast.ExprStmt); ok {
+				if c, ok := es.X.(*ast.CallExpr); ok && t.p.str(c.Fun) == sp.until {
+					cut = i
+					break
+				}
+			}
+		}
+		if cut < 0 {
+			return nil, "end of the prefix (" + sp.until + ") not found"
+		}
+		stmts = stmts[:cut]
+	}
 	if sp.sliceFrom != "" {
 		start := -1
 		for i, s := range stmts {
@@ -966,7 +1040,7 @@ func (t *translator) translate(sp tspec) (res *tfun, why string) {
 	var body string
 	var retTy []string
 	if f.mutates {
-		retTy = append(retTy, "T_"+t.gen+"_"+sp.recv)
+		retTy = append(retTy, "T_"+t.gen+"_"+sp.recv+sp.view)
 	}
 	if sp.sliceFrom != "" {
 		// the slice "returns" the listed variables; an early return inside it yields them as they are then
@@ -998,7 +1072,22 @@ func (t *translator) translate(sp tspec) (res *tfun, why string) {
 			}
 			body += fmt.Sprintf("  let %s : %s := %s\n", e.lnames[nm], e.vars[nm].lean(), zero)
 		}
-		body += e.block(stmts, e.result(e.namedResults()), "  ")
+		fall := e.result(e.namedResults())
+		if sp.until != "" && len(f.resNames) == 0 {
+			zs := []string{}
+			for _, ty := range f.resTypes {
+				switch ty {
+				case tErr:
+					zs = append(zs, "\"\"")
+				case tBool, tPtr:
+					zs = append(zs, "false")
+				default:
+					zs = append(zs, "0")
+				}
+			}
+			fall = e.result(zs)
+		}
+		body += e.block(stmts, fall, "  ")
 		for _, ty := range f.resTypes {
 			retTy = append(retTy, ty.lean())
 		}
@@ -1011,9 +1100,12 @@ func (t *translator) translate(sp tspec) (res *tfun, why string) {
 	sk := append([]string{}, f.skipped...)
 	sort.Strings(sk)
 	sb.WriteString(fmt.Sprintf("/-- translated from %s (%s).%s; skipped calls: %s -/\n", sp.file, sp.recv, sp.name, strings.Join(uniq(sk), ", ")))
-	sb.WriteString(fmt.Sprintf("def %s (%s : T_%s_%s)", sp.lean, e.rname, t.gen, sp.recv))
+	sb.WriteString(fmt.Sprintf("def %s (%s : T_%s_%s)", sp.lean, e.rname, t.gen, sp.recv+sp.view))
 	for i, p := range f.params {
 		sb.WriteString(fmt.Sprintf(" (%s : %s)", leanIdent(p), f.ptypes[i].lean()))
+	}
+	for i, p := range f.onames {
+		sb.WriteString(fmt.Sprintf(" (%s : %s)", p, f.otypes[i].lean()))
 	}
 	sb.WriteString(fmt.Sprintf(" : %s :=\n%s", rt, body))
 	f.text = sb.String()
@@ -1067,20 +1159,22 @@ func (t *translator) emit(specs []tspec, sb *strings.Builder) {
 	recvs := []string{}
 	seen := map[string]bool{}
 	for _, it := range items {
-		if !seen[it.sp.recv] {
-			seen[it.sp.recv] = true
-			recvs = append(recvs, it.sp.recv)
+		if !seen[it.sp.recv+"|"+it.sp.view] {
+			seen[it.sp.recv+"|"+it.sp.view] = true
+			recvs = append(recvs, it.sp.recv+"|"+it.sp.view)
 		}
 	}
-	for _, r := range recvs {
+	for _, rv := range recvs {
+		r := rv[:strings.Index(rv, "|")]
+		view := rv[strings.Index(rv, "|")+1:]
 		st := t.structs[r]
 		if st == nil {
 			continue
 		}
-		sb.WriteString(fmt.Sprintf("structure T_%s_%s where\n", t.gen, r))
+		sb.WriteString(fmt.Sprintf("structure T_%s_%s where\n", t.gen, r+view))
 		n := 0
 		for _, fn := range st.fields {
-			if t.used[r][fn] {
+			if t.used[r+view][fn] {
 				sb.WriteString(fmt.Sprintf("  %s : %s\n", leanIdent(fn), st.ftype[fn].lean()))
 				n++
 			}
@@ -1106,6 +1200,8 @@ func transAll(v1, v2 *pkg) string {
 	t1.emit([]tspec{
 		{file: "batcher.go", recv: "Batcher", name: "incTarget", lean: "v1_incTarget"},
 		{file: "batcher.go", recv: "Batcher", name: "trySetTargetToZero", lean: "v1_trySetTargetToZero"},
+		{file: "batcher.go", recv: "Batcher", name: "applyDefaults", lean: "v1_applyDefaults", view: "_cfg"},
+		{file: "batcher.go", recv: "Batcher", name: "Enqueue", lean: "v1_enqueueAdmit", until: "r.incTarget", opaque: true, view: "_cfg"},
 		{file: "azure-shared-resource.go", recv: "AzureSharedResource", name: "MaxCapacity", lean: "v1_sr_MaxCapacity"},
 		{file: "azure-shared-resource.go", recv: "AzureSharedResource", name: "Capacity", lean: "v1_sr_Capacity"},
 		{file: "azure-shared-resource.go", recv: "AzureSharedResource", name: "calc", lean: "v1_sr_calc"},
@@ -1119,6 +1215,8 @@ func transAll(v1, v2 *pkg) string {
 	t2.emit([]tspec{
 		{file: "batcher.go", recv: "batcher", name: "incTarget", lean: "v2_incTarget"},
 		{file: "batcher.go", recv: "batcher", name: "confirmTargetIsZero", lean: "v2_confirmTargetIsZero"},
+		{file: "batcher.go", recv: "batcher", name: "applyDefaults", lean: "v2_applyDefaults", view: "_cfg"},
+		{file: "batcher.go", recv: "batcher", name: "Enqueue", lean: "v2_enqueueAdmit", until: "r.incTarget", opaque: true, view: "_cfg"},
 		{file: "shared-resource.go", recv: "sharedResource", name: "MaxCapacity", lean: "v2_sr_MaxCapacity"},
 		{file: "shared-resource.go", recv: "sharedResource", name: "Capacity", lean: "v2_sr_Capacity"},
 		{file: "shared-resource.go", recv: "sharedResource", name: "calc", lean: "v2_sr_calc"},
